@@ -131,3 +131,27 @@ pub fn immutable_count(tree: &Tree) -> usize {
 pub fn txn_start_seq(tx: &crate::Transaction) -> u64 {
 	tx.start_seq_num
 }
+
+/// A logical clock set by the script (timestamps of commit-time writes, retention age).
+#[derive(Debug, Default)]
+pub struct ManualClock(std::sync::atomic::AtomicU64);
+
+impl ManualClock {
+	/// Sets the current time.
+	pub fn set(&self, t: u64) {
+		self.0.store(t, std::sync::atomic::Ordering::SeqCst);
+	}
+}
+
+impl crate::clock::LogicalClock for ManualClock {
+	fn now(&self) -> u64 {
+		self.0.load(std::sync::atomic::Ordering::SeqCst)
+	}
+}
+
+/// Installs a manual clock into the options and returns a handle to it.
+pub fn install_manual_clock(opts: &mut crate::Options) -> Arc<ManualClock> {
+	let c = Arc::new(ManualClock::default());
+	opts.clock = Arc::clone(&c) as Arc<dyn crate::clock::LogicalClock>;
+	c
+}
